@@ -53,3 +53,13 @@ Definition operand_str (o : operand) : str :=
   match o with OStr s => html_escape false s | OHtml s => s | OObj s => html_escape false s end.
 Definition is_html_operand (o : operand) : bool := match o with OHtml _ => true | _ => false end.
 Definition is_html_val (v : cval) : bool := match v with CHtml _ => true | _ => false end.
+
+(* F9.  The accumulation step of TagList.get_html_string for a self-rendering child:
+   html_ (a str) takes the value returned by child._repr_html_(), which is a str or -- natural
+   for users of this library -- an HTML object.  Before commit c4a8f45 the step was
+   html_ += r, that is add (CStr acc) r: for an HTML result Python dispatches to HTML.__radd__,
+   which escapes the accumulated markup.  The repaired code first takes an HTML result as a
+   string (as_string). *)
+Definition as_plain (r : cval) : cval := match r with CHtml s => CStr s | other => other end.
+Definition acc_step_unrepaired (acc : str) (r : cval) : option cval := add (CStr acc) r.
+Definition acc_step (acc : str) (r : cval) : option cval := add (CStr acc) (as_plain r).
